@@ -288,8 +288,68 @@ func init() {
 		}
 		return "ok " + keyFields(k) + " " + hx([]byte(k.String()))
 	}
+	// bip_toecdsa <bytes82> : decode, then hand the key to the ecdsa / secp256k1 types: ToECDSA (private keys only),
+	// ToPublicECDSA, ToPublicSecp256k1 — all must describe the key the encoding holds, and leave it unchanged
+	opImpl["bip_toecdsa"] = func(a []string) string {
+		var k ecckd.ExtendedKey
+		if err := k.UnmarshalBinary(unhx(a[0])); err != nil {
+			return "err " + bipErrName(err)
+		}
+		before := keyFields(&k)
+		out := ""
+		if k.IsPrivate() {
+			p := k.ToECDSA()
+			out += "priv " + bigHex(p.D) + " " + bigHex(p.X) + " " + bigHex(p.Y) + " | "
+		}
+		if pe, err := k.ToPublicECDSA(); err != nil {
+			out += "pubE-err"
+		} else {
+			out += "pubE " + bigHex(pe.X) + " " + bigHex(pe.Y)
+		}
+		if ps, err := k.ToPublicSecp256k1(); err != nil {
+			out += " | pubS-err"
+		} else {
+			out += " | pubS " + bigHex(ps.X()) + " " + bigHex(ps.Y())
+		}
+		if keyFields(&k) != before {
+			return "KEY-MODIFIED " + out
+		}
+		return "ok " + out
+	}
 	generators["C12"] = func(h *H) {
 		genC12(h)
+		// keys handed to the ecdsa / secp256k1 types: private keys with short, small and boundary values, public keys
+		// with special abscissas, and ordinary derived keys
+		mk := func(priv bool, keyData []byte) string {
+			b := make([]byte, 82)
+			if priv {
+				copy(b, []byte{0x04, 0x88, 0xad, 0xe4})
+			} else {
+				copy(b, []byte{0x04, 0x88, 0xb2, 0x1e})
+			}
+			b[4] = byte(h.rng.Intn(4))
+			copy(b[13:45], h.randBytes(32))
+			copy(b[45+33-len(keyData):78], keyData)
+			return hx(fixChecksum(b))
+		}
+		var privs []*big.Int
+		for _, v := range []int64{1, 2, 3, 255, 256, 1 << 20, 1 << 40} {
+			privs = append(privs, big.NewInt(v), new(big.Int).Sub(curveN, big.NewInt(v)))
+		}
+		for i := 0; i < 2+h.budget/8; i++ {
+			x := new(big.Int).SetBytes(h.randBytes(32))
+			x.Rsh(x, uint(8*h.rng.Intn(30)))
+			privs = append(privs, x, new(big.Int).SetBytes(h.randBytes(32)))
+		}
+		for _, d := range privs {
+			if d.Sign() > 0 && d.Cmp(curveN) < 0 {
+				h.doLine("to-ecdsa-private", "bip_toecdsa "+mk(true, be32(d)))
+			}
+		}
+		for _, pt := range h.pointsWithSpecialX(2 + h.budget/8) {
+			c := append([]byte{byte(2 + pt[1].Bit(0))}, be32(pt[0])...)
+			h.doLine("to-ecdsa-public", "bip_toecdsa "+mk(false, c))
+		}
 		// imported public keys whose x coordinate is short (leading zero bytes), sits in [N, P) or just below P
 		for _, pt := range h.pointsWithSpecialX(2 * h.budget) {
 			h.doLine("from-public-key-special-x", "bip_frompub "+hx(be32(pt[0]))+" "+hx(be32(pt[1]))+" "+hx(h.randBytes(32)))
